@@ -1098,6 +1098,101 @@ impl Family for TlsReplySizes {
     }
 }
 
+/// requests of every size in windows around 16 KiB and 32 KiB (TLS record and buffer sizes) inside a
+/// TLS session: PREPARE, one long-data chunk of n bytes, EXECUTE, a query of n bytes, a short query.
+/// The expected callbacks come from the registry model; the replies are decoded after decryption.
+struct TlsRequestSizes {
+    sizes: Vec<usize>,
+}
+impl TlsRequestSizes {
+    fn new(quick: bool) -> Self {
+        let mut sizes = Vec::new();
+        for c in if quick { vec![16_384usize] } else { vec![4_096usize, 8_192, 16_384, 32_768, 49_152, 65_536] } {
+            sizes.extend(c - 60..=c + 30);
+        }
+        TlsRequestSizes { sizes }
+    }
+}
+impl Family for TlsRequestSizes {
+    fn name(&self) -> String {
+        "request-sizes-inside-tls".into()
+    }
+    fn len(&self) -> u64 {
+        self.sizes.len() as u64 * 2
+    }
+    fn run(&self, idx: u64, st: &mut Stats) -> Result<(), Violation> {
+        use super::model::{Registry, Routed};
+        use super::registry::{encode, Action, Bind};
+        let n = self.sizes[(idx / 2) as usize];
+        let uniform = if idx % 2 == 0 { usize::MAX } else { 4093 };
+        st.nontrivial += 1;
+        st.bump("tls_request_sizes");
+        let mut reg = Registry::default();
+        let mut cmds = Vec::new();
+        let mut expected = vec![Cb::Auth { user: Some(b"tls-user".to_vec()), certs: None }];
+        let data: Vec<u8> = (0..n).map(|k| (k % 249) as u8).collect();
+        let mut text = b"SELECT '".to_vec();
+        text.extend((0..n - 9).map(|k| b'a' + (k % 26) as u8));
+        text.push(b'\'');
+        for step in 0..5 {
+            let p = match step {
+                0 => encode(&reg, &Action::Prepare { id: 1, n: 1, ok: true }, step),
+                1 => cmd_long(1, 0, &data),
+                2 => encode(&reg, &Action::Exec { id: 1, bind: Bind::C, null_first: false, shim_ignores: 0 }, step),
+                3 => with_byte(COM_QUERY, &text),
+                _ => with_byte(COM_QUERY, b"tail"),
+            };
+            match reg.route(&p) {
+                Routed::Cb(cb) => expected.push(cb),
+                Routed::NoCb => {}
+                _ => {
+                    st.skipped += 1;
+                    return Ok(());
+                }
+            }
+            cmds.push(ClientCmd::new(p));
+        }
+        let ncmds = cmds.len();
+        SCRIPT_CMDS.with(|c| *c.borrow_mut() = Some(cmds));
+        let o = run_tls_full(Some(pki().server_plain.clone()), false, vec![], uniform, 0, false, None, 2);
+        let (_, conv, last_seq) = script_with(2);
+        SCRIPT_CMDS.with(|c| *c.borrow_mut() = None);
+        let what = format!("PREPARE, a long-data chunk of {} bytes, EXECUTE, a query of {} bytes, a short query inside TLS, reads of at most {} bytes", n, n, if uniform == usize::MAX { 0 } else { uniform });
+        if let ConnResult::Panic(l, m) = &o.res {
+            return Err(Violation::new(panic_key(l, m), format!("{}: run_on panicked at {}: {}", what, l, m)));
+        }
+        if o.st.hang {
+            return Err(Violation::new("hang", format!("{}: the server waited for bytes although the client had sent everything", what)));
+        }
+        if let Some(e) = &o.st.tls_error {
+            return Err(Violation::new("tls-error", format!("{}: {}", what, e)));
+        }
+        let g = o.st.greeting_len.unwrap_or(0);
+        only_tls_records(&o.st.from_server[g..]).map_err(|e| Violation::new("plaintext-after-switch", format!("{}: {}", what, e)))?;
+        if !o.res.is_ok() {
+            return Err(Violation::new("result-not-ok", format!("{}: run_on returned {}", what, o.res.short())));
+        }
+        let got: Vec<Cb> = o
+            .log
+            .iter()
+            .map(|c| match c {
+                Cb::Auth { user, certs } => Cb::Auth { user: user.clone(), certs: certs.clone().filter(|c| !c.is_empty()) },
+                other => other.clone(),
+            })
+            .collect();
+        if got != expected {
+            return Err(Violation::new("commands-differ", format!("{}: callback log {:?}, expected {:?}", what, got.iter().map(cb_short).collect::<Vec<_>>(), expected.iter().map(cb_short).collect::<Vec<_>>())));
+        }
+        let mut all = o.st.from_server[..g].to_vec();
+        all.extend_from_slice(&o.st.decrypted);
+        decode_all(&all, &conv, &last_seq, ncmds, false).map_err(|e| Violation::new("decrypted-replies", format!("{}: {}", what, e)))?;
+        Ok(())
+    }
+    fn describe(&self, idx: u64) -> J {
+        json!({"request_bytes": self.sizes[(idx / 2) as usize], "uniform_read": if idx % 2 == 0 { 0 } else { 4093 }})
+    }
+}
+
 /// a TLS client that says goodbye properly (close_notify, then end of stream) at every kind of
 /// position: right after the TLS handshake and before the login packet, inside the login packet, at
 /// the end of it, inside and at the end of the commands behind it. run_on returns Ok exactly when
@@ -1184,6 +1279,7 @@ pub fn build(quick: bool) -> Check {
     families.push(Box::new(NoConfig { base: baseline(false) }));
     families.push(Box::new(TlsGoodbyes));
     families.push(Box::new(TlsReplySizes::new(quick)));
+    families.push(Box::new(TlsRequestSizes::new(quick)));
     families.push(Box::new(TlsWalks { depth: 3 }));
     families.push(Box::new(TlsWalks { depth: if quick { 4 } else { 5 } }));
     Check {
